@@ -182,10 +182,10 @@ var baseAssumptions = []string{
 // Finish prints the verdict, writes evidence and returns the exit code.
 // applyFloors turns a rule that matched fewer instances than confirmed by hand into a violation.
 func (r *Report) applyFloors() {
-	// a rule set that gave up on an anchor has said so (UNDECIDED); the floors of the rules it
-	// could not run would only repeat that as violations
+	// a rule set that could not decide something has said so (UNDECIDED, the check fails); the
+	// floors of the rules it could not run would only repeat that as violations
 	for _, o := range r.Obs {
-		if o.st == Undecided && strings.HasSuffix(o.Rule, ".anchor") {
+		if o.st == Undecided {
 			return
 		}
 	}
